@@ -2483,3 +2483,423 @@ def C09(ctx, model, tier, models):
     ctx.ob("CEN-H", "concat-present", n == 1, "concat analysed")
     ctx.floor("PL-sub", 3)
     ctx.assumptions.append("concat!() has at least one member")
+
+
+# ============================================================================= C10 combine
+
+def obs_of_counter(e):
+    """Describe an expression as an observation of a counter: ('post'|'cur', cellkey) lists for phi alternatives."""
+    alts = list(e[1]) if e[0] == "phi" else [e]
+    out = []
+    for a in alts:
+        base, off = lin(a)
+        ct = counter_term(base)
+        if ct is None:
+            return None
+        if ct[0] == "pre":
+            step = 1 if ct[3] == "fetch_add" else -1
+            out.append(("post" if off == step else "pre+%d" % off, ct[1], ct))
+        else:
+            out.append(("cur" if off == 0 else "cur+%d" % off, ct[1], ct))
+    return out
+
+
+def member_index(v, h):
+    """The tuple index of the source this member handler was subscribed to (combine): from the subscribe receiver."""
+    for e, b in subscribe_sends(v):
+        if e.payload is not None and e.payload[0] == "agg" and e.payload[2] == h:
+            fs = [x for x in walk(e.recv) if x[0] == "field" and x[1][0] == "param" and isinstance(x[2], int)]
+            if fs:
+                return fs[0][2]
+    return None
+
+
+def combine_lemmas(ctx, v):
+    ups = v.by_role("UP")
+    d = v.by_role("DOWN")[0]
+    N = len(ups)
+    arity = int(v.name.split("/")[1])
+    ctx.ob("EQV-arity", "%s:EQV-arity:members" % v.name, N == arity, "arity %d has %d member handlers" % (arity, N), v.loc(v.op.id))
+    tb = v.talkback_cells()
+    seen_idx = set()
+    for h in ups:
+        idx = member_index(v, h)
+        seen_idx.add(idx)
+        lab = v.label(h)
+        # ---- greeting (GRD-once n_start: post == 0, init N)
+        found = False
+        for p in v.arm(h, "Handshake"):
+            for s in send_sig(v, h, "Handshake", p):
+                if s[1] == "Handshake" and s[0] == "SINK":
+                    found = True
+                    g = grd_once(v, p, s[4])
+                    ok = g is not None and g["step"] == -1 and g["init"] == N and g["post_offset"] == 0 and g["bound"] is None and g["uniform"] and g["adjacent"] and g["scope"] == "SUBSCRIPTION"
+                    ctx.ob("GRD-once", v.key(h, "Handshake", "GRD-once", "greet-when-all-greeted"), ok,
+                           "greeting guarded by post(n_start) == 0 on a counter initialised to N = %d" % N if ok else "greeting not guarded by post(n_start)==0 from N", s[3].loc)
+            # store own cell at own index before the count
+            st = [e for i, e in ev_effects(p) if e.kind == "cell" and e.op == "store"]
+            if p.end == "return" and not (len(st) == 1 and cell_key(st[0].cell)[1] == ("field", idx)):
+                ctx.ob("ATM-single-writer", v.key(h, "Handshake", "ATM-single-writer", "talkback-slot"), False, "member %s stores its talkback into slot %s" % (idx, [cell_key(x.cell)[1] for x in st]), v.loc(h))
+        ctx.ob("PL-greet", v.key(h, "Handshake", "PL-greet", "member-greets"), found, "member arm contains the guarded greeting", v.loc(h))
+        # ---- Data arm
+        probs = []
+        kinds = set()
+        vals_k = None
+        ndata_k = None
+        for p in returning(v.arm(h, "Data")):
+            effs = ev_effects(p)
+            rcus = [(i, e) for i, e in effs if e.kind == "cell" and e.op == "rcu"]
+            sig = send_sig(v, h, "Data", p)
+            if len(rcus) != 1:
+                probs.append("not exactly one rcu of the value tuple")
+                continue
+            ri, rc = rcus[0]
+            vals_k = cell_key(rc.cell)
+            # closure lemma: copy the current tuple, set field idx to Some(datum.clone()), return the copy
+            rets = closure_returns(v, rc.closure) if rc.closure else []
+            cl_ok = False
+            if len(rets) == 1:
+                stores = [e for e in v.all_effects(rc.closure) if e.kind == "pstore"]
+                if len(stores) == 1:
+                    stp = stores[0]
+                    base = stp.place[1] if stp.place[0] == "field" else None
+                    val = stp.value
+                    cur = ("param", rc.closure, 2)
+                    cl_ok = (stp.place[0] == "field" and stp.place[2] == idx and base is not None and strip_clone(base) == cur and base != cur
+                             and val[0] == "agg" and val[2] == "Option::Some" and strip_clone(val[3][0]) == incoming_payload(h, "Data")
+                             and rets[0][1] == base)
+            if not cl_ok:
+                probs.append("the rcu closure is not `copy tuple; tuple.%s = Some(datum.clone()); copy`" % idx)
+            # first-value test on own slot, counter decremented at most once per member, after the publication (ORD-pub-signal)
+            first = [a for (_, a, _) in guards_before(p, len(p.events)) if a[0] in ("opt", "bool") and any(x[0] == "cellload" and cell_key(x[1]) == vals_k for x in walk(a[1]))]
+            slot_ok = False
+            is_first = None
+            for a in first:
+                fld = [x for x in walk(a[1]) if x[0] == "field" and x[1][0] == "cellload"]
+                if fld and fld[0][2] == idx:
+                    slot_ok = True
+                    is_first = (a[2] == "none") if a[0] == "opt" else None
+            if not slot_ok:
+                probs.append("the first-value test does not look at the member's own slot")
+            rmws = [(i, e) for i, e in effs if e.kind == "atomic" and e.op not in ("load", "store")]
+            if is_first:
+                kinds.add("first")
+                if len(rmws) != 1 or not (rmws[0][1].op == "fetch_sub" and rmws[0][1].operand[3] == 1):
+                    probs.append("first value does not decrement n_data exactly once")
+                elif rmws[0][0] < ri:
+                    probs.append("n_data is decremented before the value is published (ORD-pub-signal)")
+                else:
+                    ndata_k = cell_key(rmws[0][1].cell)
+            elif is_first is False:
+                kinds.add("later")
+                if rmws:
+                    probs.append("a later value changes a counter")
+            # emission
+            em = [s for s in sig if s[0] == "SINK"]
+            dec = []
+            for (i, a, ev) in guards_before(p, len(p.events)):
+                if a[0] == "cmp" and a[3] in ("==", "!=") and a[4] == 0 and a[2] is None and a[1] is not None:
+                    ob = obs_of_counter(a[1])
+                    if ob and all(o[0] in ("post", "cur") for o in ob):
+                        dec.append((i, a, ob))
+            if len(dec) != 1:
+                probs.append("emission is not decided by n_data == 0")
+                continue
+            zero = dec[0][1][3] == "=="
+            if zero:
+                if len(em) != 1 or em[0][1] != "Data":
+                    probs.append("all members have a value but no tuple is emitted")
+                else:
+                    pl = em[0][3].payload
+                    okp = pl[0] == "call" and pl[2].endswith("Unwrap::unwrap") and strip_clone(pl[3][0])[0] == "cellload" and cell_key(strip_clone(pl[3][0])[1]) == vals_k
+                    if not okp:
+                        probs.append("emitted payload is not unwrap(vals.load().clone())")
+                    else:
+                        lsite = strip_clone(pl[3][0])[2]
+                        li = [i for i, e in effs if e.kind == "cell" and e.op in ("load", "load_full") and e.site == lsite]
+                        if not li or li[0] < ri:
+                            probs.append("the tuple is read before this datum was published")
+                        if [1 for i, e in effs if e.kind == "send" and ri < i < em[0][4]]:
+                            probs.append("a send lies between publication and emission")
+            else:
+                if em:
+                    probs.append("a tuple is emitted before every member has a value")
+            if any(s[0] != "SINK" for s in sig):
+                probs.append("Data arm sends upstream")
+        ctx.ob("REL-xor", v.key(h, "Data", "REL-xor", "tuple-rule"), not probs and kinds == {"first", "later"},
+               "slot %s := Some(d) by rcu; first value decrements n_data after publishing; emit unwrap(latest tuple) iff n_data == 0" % idx if not probs else "; ".join(sorted(set(probs))[:4]), v.loc(h))
+        # n_data: init N, only written by this pattern
+        if ndata_k:
+            okc = cell_init(v, ndata_k[0]) == N and all(e.kind == "atomic" and e.op == "fetch_sub" and site_arms(v, b, e.site) == ["Data"] for e, b in cell_writes(v, ndata_k[0]))
+            ctx.ob("GRD-once", v.key(h, "Data", "GRD-once", "n_data-init-N"), okc, "n_data starts at N = %d and is only decremented in member Data arms" % N, v.loc(h))
+        # completion
+        for var in ("Error", "Terminate"):
+            okt, n = True, 0
+            for p in v.arm(h, var):
+                for s in path_terminals(v, h, var, p):
+                    n += 1
+                    g = grd_once(v, p, s[4])
+                    if not (g and g["step"] == -1 and g["init"] == N and g["post_offset"] == 0 and g["bound"] is None and g["uniform"] and g["adjacent"]):
+                        okt = False
+            ctx.ob("GRD-once", v.key(h, var, "GRD-once", "complete-when-all-ended"), okt and n >= 1, "completion guarded by post(n_end) == 0 from N", v.loc(h))
+    ctx.ob("ATM-single-writer", "%s:ATM-single-writer:indices" % v.name, seen_idx == set(range(N)), "member handlers cover indices %s" % sorted(x for x in seen_idx if x is not None), v.loc(v.op.id))
+    lemma_down_relay(ctx, v, d, "Pull", ("Pull",), what="pull-to-every-member")
+    # Unwrap::unwrap maps field k to field k
+    for b in v.P.bodies.values():
+        pass
+
+
+def unwrap_impl_lemma(ctx, model):
+    """Body lemma for the local `Unwrap::unwrap` impls: output field k is unwrap(self.k)."""
+    P = model.prog
+    n = 0
+    for bid, b in P.bodies.items():
+        if not bid.endswith("as combine::Unwrap>::unwrap"):
+            continue
+        n += 1
+        ret = P.link(b.origin_local(0))
+        ok = ret[0] == "agg" and ret[1] == "tuple"
+        if ok:
+            for k, x in enumerate(ret[3]):
+                if not (x[0] == "someof" and x[1] == ("field", ("param", bid, 1), k)):
+                    ok = False
+        ctx.ob("REL-unwrap", "combine:Unwrap/%d:REL-unwrap" % (len(ret[3]) if ret[0] == "agg" else 0), ok, "Unwrap::unwrap maps field k to unwrap(self.k), k = 0..N-1", loc_of(b.span))
+    ctx.ob("REL-unwrap", "combine:Unwrap:count", n == 12, "%d Unwrap impls" % n)
+
+
+def arity_skeleton(v, h, idx):
+    """Canonical description of a member handler, with its own index abstracted (EQV-arity)."""
+    out = []
+    for var in VARIANTS:
+        lines = set()
+        for p in v.arm(h, var):
+            toks = []
+            for ev in p.events:
+                if ev[0] == "eff" and effect_visible(v.P, ev[1]) and not ev[1].tracing:
+                    t = v.m.fmt_effect(v.op, ev[1])
+                    toks.append(t)
+                elif ev[0] == "br":
+                    toks.append("if[%s=%s]" % (v.m.fmt_payload(v.op, ev[1]), ev[2]))
+            s = "; ".join(toks) + "=>" + p.end
+            s = re.sub(r"combine/\d+", "combine/N", s)
+            s = re.sub(r"#\d+", "#k", s)
+            s = s.replace(".%d" % idx, ".$idx")
+            lines.add(s)
+        out.append((var, tuple(sorted(lines))))
+    return tuple(out)
+
+
+@prop("C10", "other",
+      "Structural proof of combine's tuple-construction rule per member datum, instantiated for all 12 arities and all 78 member "
+      "handlers, both feature configurations (sequential, A1-A6): greeting by GRD-once post(n_start)==0 with n_start initialised to N "
+      "= number of member handlers of that arity; member idx's Data arm publishes the datum with rcu whose closure is `copy the "
+      "tuple, set field idx to Some(d.clone()), return it` (closure lemma), decrements n_data exactly once - on the member's first "
+      "value, tested on its own slot - and only after the publication (ORD-pub-signal), and emits unwrap(vals.load().clone()) read "
+      "after the publication iff n_data == 0, with no send in between (ORD-update-emit, REL-xor); Unwrap::unwrap maps field k to "
+      "field k (body lemma, 12 impls); index agreement: the handler subscribed to source idx touches only slot idx of both tuples "
+      "and the handlers cover 0..N-1; completion by GRD-once post(n_end)==0; every Pull reaches every member index exactly once; "
+      "EQV-arity: member handlers of all arities have identical skeletons modulo the index. Which tuple for which interleaving "
+      "follows because each datum's delivery is one arm execution. Recorded deviations: KF-1 (C05), KF-2 (C04).",
+      axioms=["A1", "A2", "A5", "A6"])
+def C10(ctx, model, tier, models):
+    census_operators(ctx, model)
+    n = 0
+    skels = {}
+    for v in views(model):
+        if v.family == "combine":
+            combine_lemmas(ctx, v)
+            n += 1
+            for h in v.by_role("UP"):
+                skels.setdefault(arity_skeleton(v, h, member_index(v, h)), []).append("%s.%s" % (v.name, member_index(v, h)))
+    unwrap_impl_lemma(ctx, model)
+    ctx.ob("EQV-arity", "combine:EQV-arity:arities", n == 12, "%d arities analysed" % n)
+    ctx.ob("EQV-arity", "combine:EQV-arity:member-skeletons", len(skels) == 1,
+           "all %d member handlers share one skeleton modulo the index" % sum(len(x) for x in skels.values()) if len(skels) == 1 else
+           "member handlers fall into %d skeleton classes: %s" % (len(skels), [x[:3] for x in skels.values()][:4]))
+    ctx.floor("REL-xor", 78)
+    ctx.floor("GRD-once", 78 * 4)
+
+
+# ============================================================================= C11 flatten
+
+def flatten_lemmas(ctx, v):
+    uo = v.by_role("UP")[0]
+    ui = v.by_role("UP_INNER")[0]
+    tb = v.talkback_cells()
+    inner_k = [k for k, l in tb.items() if any(h == ui for h, _ in l)]
+    demand_lemmas(ctx, v)
+    # switch: previous inner disposed (Some-guarded, exactly once) before the new subscription
+    probs, kinds = [], set()
+    for p in returning(v.arm(uo, "Data")):
+        sig = send_sig(v, uo, "Data", p)
+        subs = [s for s in sig if s[0] == "UPSRC_INNER" and s[1] == "Handshake"]
+        disp = [s for s in sig if s[0] == "UPTB"]
+        if len(subs) != 1:
+            probs.append("not exactly one inner subscription")
+            continue
+        dec = [a for (_, a, _) in guards_before(p, subs[0][4]) if a[0] == "discr" and a[1][0] == "cellload" and base_key(a[1][1]) in inner_k]
+        if not dec:
+            probs.append("the previous inner's cell is not consulted before subscribing")
+            continue
+        if dec[0][2] == 1:
+            kinds.add("switch")
+            if not (len(disp) == 1 and disp[0][1] == "Terminate" and disp[0][4] < subs[0][4] and recv_load(disp[0][3]) and base_key(recv_load(disp[0][3])[1]) in inner_k):
+                probs.append("active previous inner is not disposed exactly once before the new subscription")
+        else:
+            kinds.add("fresh")
+            if disp:
+                probs.append("something is disposed although no inner is active")
+        pl = subs[0][3].payload
+        if not (pl[0] == "agg" and pl[2] == ui):
+            probs.append("inner is not subscribed with the inner handler")
+    ctx.ob("REL-xor", v.key(uo, "Data", "REL-xor", "switch-disposes-previous-inner"), not probs and kinds == {"switch", "fresh"},
+           "a new inner disposes the active previous inner exactly once (Some-guarded), then is subscribed" if not probs else "; ".join(sorted(set(probs))[:3]), v.loc(uo))
+    for h in (uo, ui):
+        _flatten_completion(ctx, v, h, tb)
+        lemma_rel_one(ctx, v, h, "Error", "SINK", "Error", "in", what="error-relayed", only_class=("SINK",))
+        _flatten_cross_disposal(ctx, v, h, "Error")
+    # recorded: the inner data relay is unconditional (no generation check) - the 'none of its data afterwards' clause rests on A3
+    probs = []
+    for p in returning(v.arm(ui, "Data")):
+        if guards_before(p, len(p.events)):
+            probs.append("guarded")
+    ctx.ob("REL-1:1", v.key(ui, "Data", "REL-1:1", "inner-relay-unconditional"), not probs,
+           "inner data is relayed unconditionally: a disposed inner is silent by A3 only (no generation check in the code)", v.loc(ui))
+    _cell_hygiene(ctx, v)
+
+
+@prop("C11", "other",
+      "Structural proof for flatten (sequential, A1-A6, synchronous or late greeters), both configurations: each outer datum leads to "
+      "exactly one inner subscription with the inner handler, preceded - iff the inner cell is Some - by exactly one Terminate to the "
+      "previous inner (REL-xor); an inner that completed by itself cleared the cell on its waiting branch, so it is not disposed "
+      "again; the inner greeting stores the talkback and pulls it once; inner data is relayed 1:1 and unconditionally ('none of its "
+      "data afterwards' therefore rests on A3, recorded); each level's Terminate arm completes the output iff the other level's "
+      "cell is None and otherwise clears its own cell (the two completion sites are mutually exclusive); error arms dispose the "
+      "other level first; Pull routing inner / outer / nowhere. Recorded finding: between a switch and the new inner's greeting the "
+      "inner cell still holds the disposed inner (KF-4).",
+      axioms=["A1", "A2", "A3", "A5", "A6"])
+def C11(ctx, model, tier, models):
+    census_operators(ctx, model)
+    n = 0
+    for v in views(model):
+        if v.family == "flatten":
+            flatten_lemmas(ctx, v)
+            n += 1
+    ctx.ob("CEN-H", "flatten-present", n == 1, "flatten analysed")
+    ctx.floor("REL-xor", 4)
+
+
+# ============================================================================= C12 share
+
+def share_lemmas(ctx, v):
+    r = v.root
+    h = v.by_role("UP")[0]
+    d = v.by_role("DOWN")[0]
+    # ROOT.H: push (rcu closure lemma), then len == 1 test, then xor
+    probs = []
+    list_k = None
+    for p in returning(v.arm(r, "Handshake")):
+        rc = [(i, e) for i, e in ev_effects(p) if e.kind == "cell" and e.op == "rcu"]
+        if len(rc) != 1:
+            probs.append("not exactly one rcu on the sink list")
+            continue
+        list_k = cell_key(rc[0][1].cell)
+        cl = rc[0][1].closure
+        pushes = [e for e in v.all_effects(cl) if e.kind in ("other", "hocall") and e.callee.endswith("::push")] if cl else []
+        rets = closure_returns(v, cl) if cl else []
+        okc = len(pushes) == 1 and len(rets) == 1
+        if okc:
+            vec, item = pushes[0].args[0], pushes[0].args[1]
+            okc = (strip_clone(vec) == ("param", cl, 2) and vec != ("param", cl, 2) and item == incoming_payload(r, "Handshake") and rets[0][1] == vec)
+        if not okc:
+            probs.append("the rcu closure is not `copy the list; push this sink; copy`")
+        lens = [(i, a) for i, a, _ in guards_before(p, len(p.events)) if a[0] == "cmp" and a[1] is not None and a[1][0] == "call" and a[1][2].endswith("::len")]
+        if not lens or lens[0][0] < rc[0][0] or not (lens[0][1][3] in ("==", "!=") and lens[0][1][4] == 1):
+            probs.append("subscription not decided by len == 1 evaluated after the push")
+    ctx.ob("GRD-len", v.key(r, "Handshake", "GRD-len", "subscribe-on-0-to-1"), not probs and list_k is not None,
+           "the sink is pushed first; upstream is subscribed iff the list then has exactly one element" if not probs else "; ".join(sorted(set(probs))), v.loc(r))
+    ctx.ob("GRD-len", v.key(r, "Handshake", "GRD-len", "guard"), all(_share_len_guard(v, b, e) for e, b in subscribe_sends(v)) and len(subscribe_sends(v)) == 1, "single subscribe site, guarded", v.loc(r))
+    # REL-xor from C01
+    kinds, probs = set(), []
+    for p in returning(v.arm(r, "Handshake")):
+        hs = [(s[0], s[1]) for s in send_sig(v, r, "Handshake", p)]
+        if hs == [("UPSRC", "Handshake")]:
+            kinds.add("subscribe")
+        elif hs == [("SINK", "Handshake")]:
+            kinds.add("greet")
+        else:
+            probs.append(str(hs))
+    ctx.ob("REL-xor", v.key(r, "Handshake", "REL-xor", "subscribe-or-greet"), not probs and kinds == {"subscribe", "greet"}, "ROOT.H subscribes (first sink) xor greets directly (later sink)", v.loc(r))
+    # fan-out
+    for var in ("Data", "Error", "Terminate"):
+        _share_fanout(ctx, v, h, var, "C12")
+    for var in ("Error", "Terminate"):
+        _share_clear_after(ctx, v, h, var)
+        # KF-9: list cleared only after the terminal fan-out
+        early = True
+        for p in returning(v.arm(h, var)):
+            st = [i for i, e in ev_effects(p) if e.kind == "cell" and e.op == "store" and cell_key(e.cell) == list_k]
+            sn = [i for i, e in ev_effects(p) if e.kind == "send"]
+            if st and sn and st[0] > sn[0]:
+                early = False
+        ctx.ob("ORD-clear-emit", "share:UP.ET:ORD:clear-after-fanout", early,
+               "the list is detached before the terminal fan-out" if early else
+               "the sink list is cleared only after the terminal fan-out: a sink that (re-)attaches from inside the terminal delivery is greeted directly and then wiped", v.loc(h))
+    lemma_rel_one(ctx, v, h, "Handshake", "SINK", "Handshake", "closure:DOWN", what="first-sink-greeted")
+    # ORD-store-pub
+    probs = []
+    for p in returning(v.arm(h, "Handshake")):
+        st = [i for i, e in ev_effects(p) if e.kind == "cell" and e.op == "store"]
+        sn = [i for i, e in ev_effects(p) if e.kind == "send"]
+        if not st or not sn or st[0] > sn[0]:
+            probs.append("source talkback not stored before the first sink is greeted")
+    ctx.ob("ORD-store-pub", v.key(h, "Handshake", "ORD-store-pub"), not probs, "source_talkback is stored before the first sink is greeted", v.loc(h))
+    for var in ("Error", "Terminate"):
+        _share_detach(ctx, v, d, var)
+    # position closure compares with this subscription's sink; removal closure splices i..i+1
+    probs = []
+    for var in ("Error", "Terminate"):
+        for p in v.arm(d, var, inline=0):
+            for i, e in ev_effects(p):
+                if e.kind in ("hocall",) and e.callee.endswith("::position"):
+                    for c in e.closures:
+                        eq = [x for x in v.all_effects(c) if x.kind in ("other",) and x.callee.endswith("ptr_eq")]
+                        if not (len(eq) == 1 and any(a == incoming_payload(r, "Handshake") for a in eq[0].args) and any(a == ("param", c, 2) for a in eq[0].args)):
+                            probs.append("position closure is not Arc::ptr_eq(element, this sink)")
+                if e.kind == "cell" and e.op == "rcu" and e.closure:
+                    sp = [x for x in v.all_effects(e.closure) if x.kind in ("other", "hocall") and x.callee.endswith("::splice")]
+                    if len(sp) != 1:
+                        probs.append("removal closure does not splice exactly once")
+                    else:
+                        rng = sp[0].args[1]
+                        okr = rng[0] == "agg" and rng[2].startswith("Range::") and lin(rng[3][1]) == (rng[3][0], 1) and strip_clone(sp[0].args[0]) == ("param", e.closure, 2)
+                        if not okr:
+                            probs.append("removal closure does not remove exactly position i from a copy of the list")
+    ctx.ob("REL-detach", v.key(d, None, "REL-detach", "closures"), not probs, "detach looks the sink up by Arc::ptr_eq and removes exactly that position from a copy of the list" if not probs else "; ".join(sorted(set(probs))), v.loc(d))
+    lemma_rel_one(ctx, v, d, "Pull", "UPTB", "Pull", "none", what="pull-relayed", only_class=("UPTB", "SINK", "SINKLIST"))
+    # the two factory-scope cells are exactly the intended sharing
+    fact = sorted(c.name or "?" for k, c in v.op.cells.items() if c.scope == "FACTORY")
+    ctx.ob("SCP-sub", "share:SCP-sub:factory-cells", len(fact) == 2 and all(c.scope == "FACTORY" for c in v.op.cells.values()), "factory-scope cells: %s" % fact, v.loc(v.op.id))
+
+
+@prop("C12", "other",
+      "Structural proof for share within the property's own quantifier (sequential, no emission nested in share's deliveries), both "
+      "configurations: ROOT.H pushes the sink with an rcu whose closure copies the list and pushes this sink (closure lemma), and only "
+      "then tests len == 1 (GRD-len): exactly one of {subscribe upstream and return, greet directly} (REL-xor), one subscribe site; "
+      "the upstream handler greets the first sink after storing source_talkback (ORD-store-pub) and relays every non-Handshake "
+      "message, cloned, to every element of the whole list (REL-fanout), clearing the list on a terminal; the talkback's E/T arms "
+      "look the sink up by Arc::ptr_eq with this very sink, remove exactly that position by rcu before anything is sent, and send "
+      "one Terminate upstream iff the list is then empty (REL-xor), so upstream is disposed exactly at the last detach and the next "
+      "push makes len == 1 again (restart); sinks and source_talkback are the only factory-scope cells. 'At most one upstream "
+      "alive': len goes 0->1 only after the previous upstream was disposed or ended. Recorded findings at the edge of the "
+      "quantifier: KF-9 (list cleared after the terminal fan-out); KF-5/KF-8/KF-6 are reported under C02/C03, C04, C17.",
+      axioms=["A1", "A2", "A3", "A5", "A6"])
+def C12(ctx, model, tier, models):
+    census_operators(ctx, model)
+    n = 0
+    for v in views(model):
+        if v.family == "share":
+            share_lemmas(ctx, v)
+            n += 1
+    ctx.ob("CEN-H", "share-present", n == 1, "share analysed")
+    ctx.floor("REL-fanout", 3)
